@@ -121,8 +121,8 @@ def generate(seed, prop):
         for r in recs:
             if style_d == "none":
                 r["dfn"] = None
-            elif style_d == "list" and r["dfn"] is None:
-                r["dfn"] = rng.choice([0.0, 12.0, 90.0])
+            elif style_d == "list" and r["dfn"] is None and rng.random() < 0.5:
+                r["dfn"] = rng.choice([0.0, 12.0, 90.0])       # else: None entry = 'use this file's own orientation'
         scalar = rng.choice([0.0, 25.0, 90.0, 181.5])
         if style_d == "scalar":
             for r in recs:
